@@ -50,9 +50,10 @@ theorem evalSql_applyUn (cfg : Cfg) (env : Env) (o : Gen.ColOp) (s : SqlExpr) :
 theorem binSemOf_arith (op : Arith) : binSemOf (arithKlass op) = arithSem op := by cases op <;> rfl
 theorem binSemOf_cmp (op : Cmp) : binSemOf (cmpKlass op) = cmpVal op := by cases op <;> rfl
 theorem binSemOf_logic (op : Logic) : binSemOf (logicKlass op) = logicSem op := by cases op <;> rfl
-theorem castSemOf_idem (ty : String) (v : Val) : castSemOf ty (castSemOf ty v) = castSemOf ty v := by
+theorem castSemOf_idem (ty : String) (v : CVal) : castSemOf ty (castSemOf ty v) = castSemOf ty v := by
   unfold castSemOf
   split
+  · cases v <;> simp [castSem]
   · cases v <;> simp [castSem]
   · cases v <;> simp [castSem]
   · rfl
@@ -69,8 +70,31 @@ theorem evalSql_mkCast (env : Env) (t : SqlExpr) (ty : String) :
 theorem castSemOf_ty (ty : Ty) : castSemOf ty.sqlName = castSem ty := by cases ty <;> rfl
 
 /-- a comparison written with the Python value on the left and mirrored by Python means the same -/
-theorem cmpVal_swap (op : Cmp) (a b : Val) : cmpVal op.swap b a = cmpVal op a b := by
-  cases op <;> cases a <;> cases b <;> simp [cmpVal, Cmp.swap, cmpSem, eq_comm, Bool.and_comm, Bool.or_comm]
+theorem cmpVal_swap (op : Cmp) (a b : CVal) : cmpVal op.swap b a = cmpVal op a b := by
+  unfold cmpVal
+  cases ltVal a b <;> cases ltVal b a <;> cases op <;> simp [Cmp.swap, Bool.and_comm, Bool.or_comm]
+
+/-! literals -/
+
+theorem evalSql_fnExpr (env : Env) (c : LitCfg) (v : PyVal) : evalSql env (fnExpr c v) = (fnNode c v).value := by
+  unfold fnExpr
+  split <;> simp [evalSql]
+
+theorem evalSql_litExpr (env : Env) (c : LitCfg) (k : Gen.Coerce) (v : PyVal) :
+    evalSql env (litExpr c k v) = (coerceNode c k v).value := by
+  cases k <;> simp [litExpr, evalSql, evalSql_fnExpr, coerceNode]
+
+theorem value_of_readsBack {l : LitNode} {v : PyVal} (h : readsBack l v = true) : l.value = pyValue v := by
+  simp [readsBack] at h
+  simp [LitNode.value, h]
+
+theorem map_value_of_readsBack (f : PyVal → LitNode) (vs : List PyVal)
+    (h : vs.all (fun v => readsBack (f v) v) = true) : (vs.map f).map LitNode.value = vs.map pyValue := by
+  induction vs with
+  | nil => rfl
+  | cons v vs ih =>
+    simp only [List.all_cons, Bool.and_eq_true] at h
+    simp [value_of_readsBack h.1, ih h.2]
 
 /-! facts a good table provides -/
 
@@ -109,57 +133,92 @@ theorem tableOK_strFn {cfg : Cfg} (h : tableOK cfg = true) (f : StrFn) :
   · have : (cfg.strFn .rlike).klass = "RegexpLike" := by simp_all [strFnKlasses]
     rw [this]; rfl
 
-/-- **meaning**: operand order, grouping and negation scope of the built tree are those of the user's expression -/
+/-- **meaning**: operand order, grouping and negation scope of the built tree are those of the user's
+    expression; every plain Python value means itself as long as the engine reads its literal back (`litAt`) -/
 theorem build_meaning (cfg : Cfg) (h : tableOK cfg = true) (env : Env) :
-    ∀ e : PyExpr, evalSql env (build cfg e) = denote env e := by
+    ∀ e : PyExpr, allNodes (litAt cfg) e = true → evalSql env (build cfg e) = denote env e := by
   intro e
   induction e with
-  | col n => rfl
-  | lit v => rfl
+  | col n => intro _; rfl
+  | lit v =>
+    intro hl; simp only [allNodes, litAt] at hl
+    simp [build, denote, evalSql_fnExpr, value_of_readsBack hl]
+  | raw s v =>
+    intro hl; simp only [allNodes, litAt] at hl
+    simp [build, denote, evalSql_litExpr, value_of_readsBack hl]
   | arith op a b iha ihb =>
+    intro hl; simp only [allNodes, Bool.and_eq_true] at hl
     obtain ⟨hk, hs, _, _⟩ := tableOK_arith h op
-    simp [build, denote, evalSql_applyBin, evalSql_unaliasS, iha, ihb, hk, hs, binSemOf_arith]
+    simp [build, denote, evalSql_applyBin, evalSql_unaliasS, iha hl.1.2, ihb hl.2, hk, hs, binSemOf_arith]
   | arithL op v b ihb =>
+    intro hl; simp only [allNodes, Bool.and_eq_true, litAt] at hl
     obtain ⟨_, _, hk, hs⟩ := tableOK_arith h op
-    simp [build, denote, evalSql_applyBin, evalSql_unaliasS, ihb, hk, hs, binSemOf_arith, evalSql]
+    simp [build, denote, evalSql_applyBin, evalSql_unaliasS, ihb hl.2, hk, hs, binSemOf_arith, evalSql, value_of_readsBack hl.1]
   | cmp op a b iha ihb =>
+    intro hl; simp only [allNodes, Bool.and_eq_true] at hl
     obtain ⟨hk, hs⟩ := tableOK_cmp h op
-    simp [build, denote, evalSql_applyBin, evalSql_unaliasS, iha, ihb, hk, hs, binSemOf_cmp]
+    simp [build, denote, evalSql_applyBin, evalSql_unaliasS, iha hl.1.2, ihb hl.2, hk, hs, binSemOf_cmp]
   | cmpL op v b ihb =>
+    intro hl; simp only [allNodes, Bool.and_eq_true, litAt] at hl
     obtain ⟨hk, hs⟩ := tableOK_cmp h op.swap
-    simp [build, denote, evalSql_applyBin, evalSql_unaliasS, ihb, hk, hs, binSemOf_cmp, evalSql, cmpVal_swap]
+    simp [build, denote, evalSql_applyBin, evalSql_unaliasS, ihb hl.2, hk, hs, binSemOf_cmp, evalSql, cmpVal_swap, value_of_readsBack hl.1]
   | logic op a b iha ihb =>
+    intro hl; simp only [allNodes, Bool.and_eq_true] at hl
     obtain ⟨hk, hs, _, _⟩ := tableOK_logic h op
-    simp [build, denote, evalSql_applyBin, evalSql_unaliasS, iha, ihb, hk, hs, binSemOf_logic]
+    simp [build, denote, evalSql_applyBin, evalSql_unaliasS, iha hl.1.2, ihb hl.2, hk, hs, binSemOf_logic]
   | logicL op v b ihb =>
+    intro hl; simp only [allNodes, Bool.and_eq_true, litAt] at hl
     obtain ⟨_, _, hk, hs⟩ := tableOK_logic h op
-    simp [build, denote, evalSql_applyBin, evalSql_unaliasS, ihb, hk, hs, binSemOf_logic, evalSql]
+    simp [build, denote, evalSql_applyBin, evalSql_unaliasS, ihb hl.2, hk, hs, binSemOf_logic, evalSql, value_of_readsBack hl.1]
   | neg a iha =>
+    intro hl; simp only [allNodes, Bool.and_eq_true] at hl
     obtain ⟨hk, _⟩ := tableOK_misc h
-    simp [build, denote, evalSql_applyUn, evalSql_unaliasS, iha, hk, unSemOf]
+    simp [build, denote, evalSql_applyUn, evalSql_unaliasS, iha hl.2, hk, unSemOf]
   | not a iha =>
+    intro hl; simp only [allNodes, Bool.and_eq_true] at hl
     obtain ⟨_, hk, _⟩ := tableOK_misc h
-    simp [build, denote, evalSql_applyUn, evalSql_unaliasS, iha, hk, unSemOf]
-  | isNull a iha => simp [build, denote, evalSql, evalSql_subject, evalSql_unaliasS, iha]
-  | isNotNull a iha => simp [build, denote, evalSql, evalSql_subject, evalSql_unaliasS, iha, unSemOf]
+    simp [build, denote, evalSql_applyUn, evalSql_unaliasS, iha hl.2, hk, unSemOf]
+  | isNull a iha =>
+    intro hl; simp only [allNodes, Bool.and_eq_true] at hl
+    simp [build, denote, evalSql, evalSql_subject, evalSql_unaliasS, iha hl.2]
+  | isNotNull a iha =>
+    intro hl; simp only [allNodes, Bool.and_eq_true] at hl
+    simp [build, denote, evalSql, evalSql_subject, evalSql_unaliasS, iha hl.2, unSemOf]
   | eqNullSafe a b iha ihb =>
+    intro hl; simp only [allNodes, Bool.and_eq_true] at hl
     obtain ⟨_, _, hk, hs, _⟩ := tableOK_misc h
-    simp [build, denote, evalSql_applyBin, evalSql_unaliasS, iha, ihb, hk, hs, binSemOf]
-  | isin a vs iha => simp [build, denote, evalSql, evalSql_subject, evalSql_unaliasS, iha]
+    simp [build, denote, evalSql_applyBin, evalSql_unaliasS, iha hl.1.2, ihb hl.2, hk, hs, binSemOf]
+  | isin a vs iha =>
+    intro hl; simp only [allNodes, Bool.and_eq_true, litAt] at hl
+    simp [build, denote, evalSql, evalSql_subject, evalSql_unaliasS, iha hl.2, map_value_of_readsBack _ vs hl.1]
   | between a lo hi iha ihlo ihhi =>
-    simp [build, denote, evalSql, evalSql_subject, evalSql_bound, evalSql_unaliasS, iha, ihlo, ihhi]
+    intro hl; simp only [allNodes, Bool.and_eq_true] at hl
+    simp [build, denote, evalSql, evalSql_subject, evalSql_bound, evalSql_unaliasS, iha hl.1.1.2, ihlo hl.1.2, ihhi hl.2]
   | like a p iha =>
+    intro hl; simp only [allNodes, Bool.and_eq_true, litAt] at hl
     obtain ⟨_, _, _, _, hk, _⟩ := tableOK_misc h
-    simp [build, denote, evalSql, evalSql_subject, evalSql_unaliasS, iha, hk, binSemOf]
+    have hp := value_of_readsBack hl.1
+    simp only [pyValue] at hp
+    simp [build, denote, evalSql, evalSql_subject, evalSql_unaliasS, iha hl.2, hk, binSemOf, hp]
   | strFn f a b iha ihb =>
-    simp [build, denote, evalSql, evalSql_unaliasS, iha, ihb, tableOK_strFn h f]
+    intro hl; simp only [allNodes, Bool.and_eq_true] at hl
+    simp [build, denote, evalSql, evalSql_unaliasS, iha hl.1.2, ihb hl.2, tableOK_strFn h f]
   | substr a s l iha ihs ihl =>
+    intro hl; simp only [allNodes, Bool.and_eq_true] at hl
     obtain ⟨_, _, _, _, _, hk⟩ := tableOK_misc h
-    simp [build, denote, evalSql, evalSql_unaliasS, iha, ihs, ihl, hk, fn3SemOf]
-  | when c v rest ihc ihv ihr => simp [build, denote, evalSql, evalSql_unaliasS, ihc, ihv, ihr]
-  | noElse => rfl
-  | otherwise d ihd => simp [build, denote, evalSql, evalSql_unaliasS, ihd]
-  | cast a ty iha => simp [build, denote, evalSql_mkCast, evalSql_unaliasS, iha, castSemOf_ty]
-  | alias a n iha => simp [build, denote, evalSql, evalSql_unaliasS, iha]
+    simp [build, denote, evalSql, evalSql_unaliasS, iha hl.1.1.2, ihs hl.1.2, ihl hl.2, hk, fn3SemOf]
+  | when c v rest ihc ihv ihr =>
+    intro hl; simp only [allNodes, Bool.and_eq_true] at hl
+    simp [build, denote, evalSql, evalSql_unaliasS, ihc hl.1.1.2, ihv hl.1.2, ihr hl.2]
+  | noElse => intro _; rfl
+  | otherwise d ihd =>
+    intro hl; simp only [allNodes, Bool.and_eq_true] at hl
+    simp [build, denote, evalSql, evalSql_unaliasS, ihd hl.2]
+  | cast a ty iha =>
+    intro hl; simp only [allNodes, Bool.and_eq_true] at hl
+    simp [build, denote, evalSql_mkCast, evalSql_unaliasS, iha hl.2, castSemOf_ty]
+  | alias a n iha =>
+    intro hl; simp only [allNodes, Bool.and_eq_true] at hl
+    simp [build, denote, evalSql, evalSql_unaliasS, iha hl.2]
 
 end Sqlframe.C05
